@@ -113,8 +113,8 @@ def get_evaluable_architecture_for_module_objects(
     """Same functionality as get_evaluable_architecture, but root module and module to evaluate are passed in as module objects
     instead of the absolute paths to them.
     """
-    root_path: str = os.path.dirname(root_module.__file__)  # type: ignore
-    module_path: str = os.path.dirname(module.__file__)  # type: ignore
+    root_path: str = _get_directory_of_module_object(root_module)
+    module_path: str = _get_directory_of_module_object(module)
 
     return get_evaluable_architecture(
         root_path,
@@ -126,3 +126,13 @@ def get_evaluable_architecture_for_module_objects(
         external_exclusions,
         regex_external_exclusions,
     )
+
+
+def _get_directory_of_module_object(module: ModuleType) -> str:
+    file = getattr(module, "__file__", None)
+
+    if file is not None:
+        return os.path.dirname(file)
+
+    # packages without an __init__.py file (namespace packages) do not have a file, only a path
+    return list(module.__path__)[0]
